@@ -605,8 +605,38 @@ func c10MkMixed(name string, defs []c10Def, mdefs []*c10XM, binds []c10XB, body 
 	return c10MkMixedO(name, defs, nil, mdefs, binds, body, listBody)
 }
 
+// a part of a string result: a literal or an integer expression (rendered in decimal by `+`)
+type c10SPart struct {
+	Lit string
+	E   *c10E
+}
+
+// a program of the mixed fragment whose result is a STRING: "lit"+e+"lit"+... (the first part is a literal, so every
+// `+` has a string on its left)
+func c10MkMixedStr(name string, defs []c10Def, odefs [][]int, mdefs []*c10XM, binds []c10XB, parts []c10SPart) *c10Prog {
+	var ss, cs []string
+	for _, pt := range parts {
+		if pt.E != nil {
+			ss = append(ss, pt.E.src())
+			cs = append(cs, "XSInt "+pt.E.coq())
+		} else {
+			ss = append(ss, "\""+pt.Lit+"\"")
+			cs = append(cs, "XSLit "+CoqStr(pt.Lit))
+		}
+	}
+	return c10MkMixedB(name, defs, odefs, mdefs, binds, strings.Join(ss, "+"), "(XBStr ["+strings.Join(cs, "; ")+"])", false)
+}
+
 // odefs: lists of lists `let o<k>=[c_i,c_j,...];`, each given by the numbers of the list constants it holds
 func c10MkMixedO(name string, defs []c10Def, odefs [][]int, mdefs []*c10XM, binds []c10XB, body *c10E, listBody bool) *c10Prog {
+	bk := "BZ "
+	if listBody {
+		bk = "BL "
+	}
+	return c10MkMixedB(name, defs, odefs, mdefs, binds, body.src(), "(XB ("+bk+body.coq()+"))", listBody)
+}
+
+func c10MkMixedB(name string, defs []c10Def, odefs [][]int, mdefs []*c10XM, binds []c10XB, bodySrc, bodyCoq string, listBody bool) *c10Prog {
 	var src strings.Builder
 	var ds, os, ms, bs []string
 	nl, ns := 0, 0
@@ -658,15 +688,11 @@ func c10MkMixedO(name string, defs []c10Def, odefs [][]int, mdefs []*c10XM, bind
 			ns++
 		}
 	}
-	src.WriteString(body.src())
-	bk := "BZ "
-	if listBody {
-		bk = "BL "
-	}
+	src.WriteString(bodySrc)
 	p := c10Opaque(name, src.String())
 	p.Class = "mixed:" + name
 	p.ListBody = listBody
-	p.XCoq = fmt.Sprintf("(mkXP [%s] [%s] [%s] [%s] (%s%s))", strings.Join(ds, "; "), strings.Join(os, "; "), strings.Join(ms, "; "), strings.Join(bs, "; "), bk, body.coq())
+	p.XCoq = fmt.Sprintf("(mkXP [%s] [%s] [%s] [%s] %s)", strings.Join(ds, "; "), strings.Join(os, "; "), strings.Join(ms, "; "), strings.Join(bs, "; "), bodyCoq)
 	return p
 }
 
@@ -722,6 +748,12 @@ func c10MixedModelledPool() []*c10Prog {
 		c10MkMixedO("mixed-lol-guard-inner", guard, [][]int{{0, 1}}, nil,
 			[]c10XB{{Kind: "index", O: 0, I: sArg(0)}},
 			zTry(zSize(lAppend(lConst(2), a1)), zAdd(zFirst(lTop(sAdd(sArg(1), sLit(1)), lConst(2))), zS(sArg(1)))), false),
+		// STRING results: immutable scalars built from integer lets, arguments and constants
+		c10MkMixedStr("mixed-string-plain", nil, nil, nil, nil,
+			[]c10SPart{{Lit: "x"}, {E: sArg(0)}, {Lit: "y"}, {E: sArg(1)}}),
+		c10MkMixedStr("mixed-string-from-maps", []c10Def{dL(lLit(1, 2, 3)), dS(0)}, [][]int{{0, 0}}, []*c10XM{xmLit("l", xvL(0), "n", xvI(sLit(7)))},
+			[]c10XB{{Kind: "int", M: xmPut(xmConst(0), "z", xvI(sArg(0))), K: "z"}, {Kind: "int", M: xmPut(xmConst(0), "z", xvI(sArg(0))), K: "n"}, {Kind: "osize", O: 0}},
+			[]c10SPart{{Lit: "z="}, {E: sCst(1)}, {Lit: ";n="}, {E: sCst(2)}, {Lit: ";"}, {E: sMul(sArg(1), sLit(2))}, {Lit: ","}, {E: sAdd(sCst(0), sCst(3))}}),
 		// per-evaluation literals only (no constant map), integer fields and size
 		c10MkMixed("mixed-literal-ints", nil, nil,
 			[]c10XB{{Kind: "int", M: xmPut(xmLit("a", xvI(sArg(0)), "b", xvI(sMul(sArg(1), sLit(3)))), "c", xvI(sAdd(sArg(0), sLit(1)))), K: "c"},
@@ -901,6 +933,18 @@ func c10RandomMixed(r *Rng, n int) *c10Prog {
 			binds = append(binds, c10XB{Kind: "size", M: m})
 			g.ns++
 		}
+	}
+	if r.Chance(0.15) {
+		parts := []c10SPart{{Lit: []string{"x", "n=", "s:", "a b"}[r.Pick(4)]}}
+		for i, np := 0, 1+r.Pick(3); i < np; i++ {
+			parts = append(parts, c10SPart{E: g.sexp(1, r.Chance(0.7))})
+			if r.Chance(0.6) {
+				parts = append(parts, c10SPart{Lit: []string{";", "y", " ", "-"}[r.Pick(4)]})
+			}
+		}
+		p := c10MkMixedStr(fmt.Sprintf("random-mixed-%d", n), defs, odefs, mdefs, binds, parts)
+		p.Class = "mixed:random-string"
+		return p
 	}
 	listBody := r.Chance(0.3)
 	for {
@@ -1861,9 +1905,9 @@ func c10RunSession(c *c10Case, sum *Summary) *c10Result {
 					sum.Count("map_fragment", "evaluations compared with the map model")
 				}
 				if xslot >= 0 {
-					o := out.coq()
+					o := "(XO " + out.coq() + ")"
 					if out.Kind == "str" {
-						o = "(OInt 123456789) (* neither an integer nor a list of integers: " + out.S + " *)"
+						o = "(XOStr " + CoqStr(out.S) + ")"
 					}
 					res.xevals[evv.K][xslot] = fmt.Sprintf("(%s, %d%%nat, %s)", c10ZList(evv.Args), evv.J, o)
 					sum.Count("mixed_fragment", "evaluations compared with the mixed list/map model")
